@@ -34,6 +34,8 @@ func main() {
 		cmdCheck(os.Args[2:])
 	case "pins":
 		cmdPins(os.Args[2:])
+	case "sweep":
+		cmdSweep(os.Args[2:])
 	default:
 		fmt.Fprintln(os.Stderr, "unknown command")
 		os.Exit(2)
@@ -182,4 +184,52 @@ func cmdPins(args []string) {
 	}
 	data, _ := json.MarshalIndent(out, "", " ")
 	fmt.Println(string(data))
+}
+
+// cmdSweep: development aid - run the generator on every module function (contract or not)
+// and print a one-line status per function.
+func cmdSweep(args []string) {
+	fs := flag.NewFlagSet("sweep", flag.ExitOnError)
+	timeout := fs.Int("timeout", 5, "")
+	match := fs.String("match", "", "substring filter on the function key")
+	fs.Parse(args)
+	s, err := vc.NewSession("/repo", "/verif/spec", fmt.Sprintf("/verif/work/sweep%d", os.Getpid()))
+	if err != nil {
+		fmt.Fprintln(os.Stderr, "error:", err)
+		os.Exit(2)
+	}
+	s.TimeoutS = *timeout
+	s.Ex.GenBudgetS = 60
+	defer os.RemoveAll(s.WorkDir)
+	keys := s.Ex.SweepKeys()
+	for _, k := range keys {
+		if *match != "" && !strings.Contains(k, *match) {
+			continue
+		}
+		t0 := time.Now()
+		results := s.Generate(k)
+		s.DischargeAll(results, "sweep")
+		for _, r := range results {
+			bad := 0
+			var names []string
+			for _, sm := range vc.Summarize([]*vc.FuncResult{r}) {
+				if sm.Status != "unsat" {
+					bad++
+					names = append(names, strings.TrimPrefix(sm.Name, r.Key)+":"+sm.Status)
+				}
+			}
+			st := "ok"
+			if r.Error != "" {
+				st = "ERROR " + r.Error
+			} else if len(r.Unsupported) > 0 {
+				st = "UNSUPPORTED " + strings.Join(r.Unsupported, "; ")
+			} else if bad > 0 {
+				st = fmt.Sprintf("FAIL %d %v", bad, names)
+			}
+			if len(st) > 300 {
+				st = st[:300]
+			}
+			fmt.Printf("%-70s paths=%-3d obl=%-4d %.1fs %s\n", strings.TrimPrefix(r.Key, vc.ModulePath+"/"), r.Paths, len(r.Obligations), time.Since(t0).Seconds(), st)
+		}
+	}
 }
